@@ -4,6 +4,7 @@ CONSTANTS
   MaxSub = 2
   Small = TRUE
   Deep = FALSE
+  Dump = TRUE
   OverwriteOnReturn = FALSE
 INVARIANTS UnionHolds NonEmptySets Inert DumpBehaviour
 PROPERTY Terminates
